@@ -97,6 +97,10 @@ def build(spec):
     hist = [gen_text(rh, profile=rh.choice(["rules", "nasty", "memory", "split", "plain", None]),
                      length=rh.choice([4, 8, 12]) if small else None) for _ in range(n)]
     target = gen_text(rw, length=rw.choice([4, 6, 8]) if small else None, target=True)
+    if rh.random() < 0.3:
+        # the target itself was processed before (the same input twice in one process): whatever is keyed by the content
+        # of a block -- evaluated expressions, discounts, caches -- sees its keys again
+        hist[rh.randrange(n)] = target
     op = {"argv": flags, "history": hist, "block": target, "env": {"tmp_name": "t"}, "desc": desc, "cpu_s": 120}
     if small:
         op["peer_plan"] = [{"kind": "optimal"}]
